@@ -128,6 +128,15 @@ def gen_case(rng, arm, tier, k=0):
         pool = [p if p[0] != "row" else ["row", [float(int(abs(v)) % 4) for v in p[1]]] for p in pool]
         if "XU" in case:
             case["XU"] = [[float(int(abs(v)) % 4) for v in r] for r in case["XU"]]
+    if arm != "pre" and style not in ("lattice", "dups") and not case.get("dtype") and rng.random() < 0.3:
+        # a few whole-number query rows (rounded training rows): they can be handed over as an
+        # integer array although the model was fitted on non-integer floats
+        case["whole"] = []
+        for _ in range(rng.randint(1, 3)):
+            a = rng.randrange(n)
+            case["whole"].append(len(pool))
+            pool.append(["row", [float(round(X[a][j])) if abs(X[a][j]) < 1e9 else 0.0 for j in range(d)]])
+        npool = len(pool)
     case["pool"] = pool
     if arm == "pre" and kind != "knn" and rng.random() < 0.5:
         case["pool_first"] = True
@@ -144,8 +153,12 @@ def gen_case(rng, arm, tier, k=0):
             # the same sample at several positions of one batch
             q = rng.randrange(npool)
             batch = [q if rng.random() < 0.5 else b for b in batch] + [q]
-        if arm != "pre" and r > 0.97 and style in ("lattice", "dups") and not case.get("dtype"):
-            ops.append(["predict_int", batch])  # whole-number rows handed over as an integer array
+        if case.get("whole") and r > 0.9:
+            wb = [rng.choice(case["whole"]) for _ in range(rng.randint(1, 3))]
+            ops.append(["predict_int", wb])  # whole-number rows handed over as an integer array
+            ops.append(["predict", [rng.randrange(npool) for _ in range(rng.randint(1, 4))]])
+        elif arm != "pre" and r > 0.97 and style in ("lattice", "dups") and not case.get("dtype"):
+            ops.append(["predict_int", batch])
         elif arm == "abort" and r < 0.2:
             ops.append(["abort", batch, rng.randint(1, 3 * n)])
         elif r < 0.85:
